@@ -23,7 +23,28 @@ ASSUMPTIONS = ["trees built through trees.Tree with child lists in arbitrary sto
 def check(case):
     index = {}
     tree = M.build(case, T, index)
-    root = case["root"]
+    root = M.copy(case["root"]) if case.get("edit") is not None else case["root"]
+    if root is not case["root"]:
+        # rebuild the index for the copied model (same preorder)
+        index = {id(n): index[id(o)] for n, o in zip(M.preorder(root), M.preorder(case["root"]))}
+    k = verify(tree, root, index)
+    if case.get("edit") is not None:
+        # the same tree object after a raw structural change (a child moved under the root, through .children/.parent
+        # directly): the navigation functions must describe the tree as it is now
+        cands = [(par, ch) for par in M.preorder(root) if not M.is_tok(par) and par is not root and len(par["c"]) >= 2 for ch in par["c"]]
+        if cands:
+            par, child = cands[case["edit"] % len(cands)]
+            par["c"] = [c for c in par["c"] if c is not child]
+            root["c"].append(child)
+            rpar, rchild, rroot = index[id(par)], index[id(child)], index[id(root)]
+            rpar.children.remove(rchild)
+            rroot.children.append(rchild)
+            rchild.parent = rroot
+            verify(tree, root, index)
+    return k
+
+
+def verify(tree, root, index):
     nodes = list(M.preorder(root))
     repo_of = {id(n): index[id(n)] for n in nodes}
     name = {id(v): k for k, v in repo_of.items()}  # id(repo node) -> id(model node)
@@ -190,7 +211,8 @@ def gen_random(ctx):
         ctx.count(key=case["root"], nontrivial=k >= 3, classes=["random:gapdeg=%d" % min(3, M.tree_gapdeg(case["root"]))])
         if k >= 5:
             ctx.sample(case["root"], cap=1)
-    ctx.hyp(S.tree_model(max_tokens=12 if quick else 16, disc=0.6), body, max_examples=600 if quick else 4000)
+    strategy = st.builds(lambda tree, edit: dict(tree, edit=edit), S.tree_model(max_tokens=12 if quick else 16, disc=0.6), st.one_of(st.none(), st.integers(0, 50)))
+    ctx.hyp(strategy, body, max_examples=600 if quick else 4000)
 
 
 UNITS = [Unit("enum", gen_enum, check, shards=(6, 16)),
